@@ -37,7 +37,7 @@ TRUSTED = ["A-XLA: a closed jaxpr executes deterministically on CPU (bit-reprodu
            "equinox modules are immutable; jax arrays are immutable (the policy passed in cannot be modified without donation)"]
 ASSUMPTIONS = ["generic callbacks stand for every observer that is a function of its context and key; LoggingCallback / ProgressBarCallback are covered by the effect inventory"]
 DROPS = ["D1: num_envs == 1 resolved per configuration"]
-NOT_DECIDED = ["'different keys yield different runs': an inequality between results of uninterpreted computations; only that the result DEPENDS on the key is shown"]
+NOT_DECIDED = ["'different keys yield different runs' for ALL keys: an inequality between results of uninterpreted computations; symbolically only that the result DEPENDS on the key is shown, plus a bounded native check on four keys"]
 sd = jax.ShapeDtypeStruct
 f32 = jnp.float32
 OBS = Box(-jnp.ones((2,)), jnp.ones((2,)))
@@ -535,8 +535,48 @@ def _dx_patch():
     return _dx.patches()
 
 
+def native_keys_replay(model):
+    """R1: the real PPO.learn (tiny budget) from the same environment, policy and hyper-parameters under four keys - typed keys 1 and 2, the legacy raw-uint32 keys PRNGKey(1) and
+    PRNGKey(2): different keys give different trained policies, and a legacy key gives the run of its typed equivalent."""
+    import hashlib
+    from lerax.env.classic_control import CartPole
+    from lerax.policy import MLPActorCriticPolicy
+
+    def digest(t):
+        h = hashlib.sha256()
+        for l in jax.tree.leaves(eqx.filter(t, eqx.is_array)):
+            h.update(np.asarray(l).tobytes())
+        return h.hexdigest()[:16]
+    env = CartPole()
+    pol = MLPActorCriticPolicy(env, key=jax.random.key(0))
+    algo = PPO(num_envs=1, num_steps=4, num_batches=1, num_epochs=1)
+    out = {}
+    for name, k in (("key(1)", jax.random.key(1)), ("key(2)", jax.random.key(2)), ("PRNGKey(1)", jax.random.PRNGKey(1)), ("PRNGKey(2)", jax.random.PRNGKey(2)), ("key(1) again", jax.random.key(1))):
+        try:
+            out[name] = digest(algo.learn(env, pol, total_timesteps=8, key=k))
+        except Exception as e:          # legacy keys rejected loudly: not a silent collapse of runs
+            out[name] = f"raised {type(e).__name__}"
+    problems = []
+    if out["key(1)"] == out["key(2)"]:
+        problems.append("typed keys 1 and 2 give the same trained policy")
+    if out["key(1)"] != out["key(1) again"]:
+        problems.append("the same key gives two different trained policies")
+    if not out["PRNGKey(1)"].startswith("raised"):
+        if out["PRNGKey(1)"] == out["PRNGKey(2)"]:
+            problems.append("legacy keys PRNGKey(1) and PRNGKey(2) give the same trained policy")
+        if out["PRNGKey(1)"] != out["key(1)"]:
+            problems.append("legacy key PRNGKey(1) does not give the run of its typed equivalent key(1)")
+    if problems:
+        return dict(reproduced=True, route="R1 (real PPO.learn, total_timesteps=8, CartPole, same policy and hyper-parameters)", inputs=dict(keys=list(out)), observed=dict(problems=problems, policy_digests=out))
+    return dict(reproduced=False, note="different keys give different runs (typed and legacy), equal keys equal runs", digests=out)
+
+
 def unit_reproducible(S):
     """Re-extraction of reset + iteration on the same inputs yields the identical program (no dependence on Python-side state between calls)."""
+    rk = native_keys_replay(None)
+    S.bounded_check("keys/different-keys-different-runs", not rk.get("reproduced"), bound="PPO.learn with total_timesteps=8 on CartPole under typed keys 1, 2 and legacy keys PRNGKey(1), PRNGKey(2)",
+                    function="lerax.algorithm.base_algorithm:AbstractAlgorithm.learn", what="different keys yield different trained policies, the same key the same one, and a legacy raw key the run of its typed equivalent",
+                    detail=rk, replay=lambda m: rk)
     fn = "lerax.algorithm:{reset,iteration}"
     S.under_contract(fn)
     for name, mk_algo, mk_pol in (("PPO", lambda: PPO(num_envs=2, num_steps=3, num_batches=1), lambda e: GenericActorCriticPolicy(e.action_space, OBS)),
